@@ -139,6 +139,7 @@ func (p plainReader) Read(b []byte) (int, error) { return p.s.Read(b) }
 type respBody struct {
 	data    []byte
 	pos     int
+	chunk   int // >0: at most that many bytes per Read (short reads while more remain)
 	eofWith bool
 	closed  int32
 	sawEOF  bool
@@ -154,6 +155,9 @@ func (b *respBody) Read(p []byte) (int, error) {
 	if b.pos >= len(b.data) {
 		b.sawEOF = true
 		return 0, io.EOF
+	}
+	if b.chunk > 0 && len(p) > b.chunk {
+		p = p[:b.chunk]
 	}
 	n := copy(p, b.data[b.pos:])
 	b.pos += n
@@ -836,7 +840,7 @@ func (o onceRT) RoundTrip(r *http.Request) (*http.Response, error) {
 }
 
 func runDrain(m *mon.M, c *Case) {
-	body := &respBody{data: bytes.Repeat([]byte("d"), c.Len), eofWith: c.EOFWith}
+	body := &respBody{data: bytes.Repeat([]byte("d"), c.Len), eofWith: c.EOFWith, chunk: c.Chunk}
 	krt := client.KeepAliveTransport(onceRT{body})
 	req, _ := http.NewRequest("GET", "http://example.invalid/", nil)
 	resp, err := krt.RoundTrip(req)
@@ -984,6 +988,15 @@ func enumerate(m *mon.M) []*Case {
 	sizes := []int{0, 1, 3, 64}
 	for _, l := range []int{0, 1, 10, 100} {
 		for _, ew := range []bool{false, true} {
+			// an underlying body that answers with short reads while more remains
+			for _, ch := range []int{1, 7} {
+				for _, a := range sizes {
+					cs = append(cs, &Case{Kind: "drain", Len: l, EOFWith: ew, Chunk: ch, Sizes: []int{a}})
+					for _, b := range sizes {
+						cs = append(cs, &Case{Kind: "drain", Len: l, EOFWith: ew, Chunk: ch, Sizes: []int{a, b}})
+					}
+				}
+			}
 			cs = append(cs, &Case{Kind: "drain", Len: l, EOFWith: ew, Sizes: nil})
 			for _, a := range sizes {
 				cs = append(cs, &Case{Kind: "drain", Len: l, EOFWith: ew, Sizes: []int{a}})
